@@ -129,6 +129,16 @@ def generate(rng, tier):
             for lit in rng.sample(LITS, 4):
                 yield (f"crit (bexpr {sx(cond_sx('L', op, None, lit, rng.random() < 0.5, False))}) "
                        f"{sx([P('L', *a)])} -"), "condition-lit"
+    # integers beyond 2**53 against literals one apart: exact integer comparison, in both criteria forms and selectors
+    for big in (2 ** 53 + 1, 2 ** 63 - 1, 2 ** 64 - 1, -(2 ** 63), 2 ** 71 + 3):
+        for op in ("==", "!=", "<", ">", "<=", ">="):
+            for lit in (str(big), str(big - 1), str(big + 1)):
+                uc = rng.random() < 0.5
+                yield (f"crit (bexpr {sx(cond_sx('L', op, None, lit, uc, False))}) "
+                       f"{sx([P('L', 'IntP', big)])} -"), "condition-lit-bigint"
+                yield f"crit {sx(cmp_sx('Z', op, lit, uc))} {sx([P('Z', 'IntP', big)])} -", "comparison-bigint"
+            it = [P("L", "IntP", big), P("R", "IntP", big + rng.choice([-1, 0, 1]))]
+            yield f"crit (bexpr {sx(cond_sx('L', op, 'R', None, True, True))}) {sx(it)} -", "condition-2-bigint"
     for a in rng.sample(VALUE_POOL, 6):
         for b in rng.sample(VALUE_POOL, 6):
             it = [P("L", *a), P("R", *b)]
